@@ -585,6 +585,26 @@ var specC12Verify = Register(&Spec[VerifyCase]{
 					return errf("after decoding a second document into the same BestChecksums, Checksums() = %+v, want the new entry %s other.tar.gz", cs2, otherHash)
 				}
 			}
+			// ... and as one element of a list: an index of several paragraphs, the one in front of
+			// this one listing its file under the OTHER algorithm only - each element answers for its
+			// own paragraph
+			if c.Source != "bestboth" {
+				otherField, otherAlgo := "Checksums-Sha512", "sha512"
+				if c.Source == "best512" {
+					otherField, otherAlgo = "Checksums-Sha256", "sha256"
+				}
+				stream := otherField + ":\n " + trueDigest(otherAlgo, []byte("neighbour")) + " 9 neighbour.tar.gz\n\n" + doc
+				var bs []best
+				if err := control.Unmarshal(&bs, strings.NewReader(stream)); err != nil || len(bs) != 2 {
+					return errf("cannot parse the two-paragraph index %q: %d elements, %v", stream, len(bs), err)
+				}
+				if cs := bs[1].Checksums(); len(cs) != 1 || cs[0] != fh {
+					return errf("the second element of a two-paragraph index %q answers Checksums() = %+v, its own paragraph says %+v", stream, cs, fh)
+				}
+				if cs := bs[0].Checksums(); len(cs) != 1 || cs[0].Filename != "neighbour.tar.gz" || cs[0].Algorithm != otherAlgo {
+					return errf("the first element of a two-paragraph index %q answers Checksums() = %+v", stream, cs)
+				}
+			}
 			if c.Source == "bestboth" {
 				// whichever was selected: its algorithm decides
 				if fh.Algorithm == "sha512" {
